@@ -990,6 +990,8 @@ func evalDiv(args []ast.Constant) (int64, error) {
 			return 0, ErrDivisionByZero
 		case 1:
 			return 1, nil
+		case -1:
+			return -1, nil
 		default:
 			return 0, nil // integer division 1 / arg[0]
 		}
